@@ -26,6 +26,10 @@ CONSTANTS Tokens,      \* function token name -> [id, ud, hosts, expire, timeout
                          \* it again from the same address (FALSE, known finding D18: replayed handshakes re-establish sessions)
 
 SEND_RATE == 250
+\* ServerAuthentication (server.rs:92-99, 124-133): Secure = connect tokens are sealed with the server's private key "K" and must
+\* list one of its public addresses; Unsecure = the key is all zeroes ("Z": any client can make its own token, as
+\* ClientAuthentication::Unsecure does) and the host list is not looked at.  A definition so that a configuration may override it.
+Secure0 == TRUE
 GBASE == 536870912      \* the harness maps the global sequence 2^63 + k to 2^29 + k
 REQLEN == 1078
 
@@ -61,7 +65,7 @@ NewClient(c) ==
      lastSend |-> 0 - 1, lastRecv |-> 0, now |-> 0, start |-> 0, hostIdx |-> 1, win |-> {}, winMax |-> 0]
 
 NewWorld ==
-    [slots |-> [i \in 1..MaxClients0 |-> NoConn], pending |-> <<>>, entries |-> <<>>, maxc |-> MaxClients0, chalSeq |-> 0, gseq |-> GBASE, now |-> 0,
+    [secure |-> Secure0, slots |-> [i \in 1..MaxClients0 |-> NoConn], pending |-> <<>>, entries |-> <<>>, maxc |-> MaxClients0, chalSeq |-> 0, gseq |-> GBASE, now |-> 0,
      cl |-> [c \in DOMAIN Clients |-> NewClient(c)],
      consumed |-> {},     \* tokens whose handshake completed
      net |-> <<>>,        \* every datagram emitted so far (abstract), index = emission number
@@ -129,9 +133,9 @@ RequestOK(w, d) ==
     /\ d.tok \in DOMAIN Tokens
     /\ d.intact
     /\ LET T == Tokens[d.tok] IN
-       /\ d.proto = "P" /\ T.proto = "P" /\ T.sealed = "K" /\ T.tamper = "none" /\ T.ok
+       /\ d.proto = "P" /\ T.proto = "P" /\ T.sealed = (IF w.secure THEN "K" ELSE "Z") /\ T.tamper = "none" /\ T.ok
        /\ (w.now \div 1000) < T.expire
-       /\ \E h \in T.hosts : h >= 1 /\ h <= ServerAddrs
+       /\ (w.secure => \E h \in T.hosts : h >= 1 /\ h <= ServerAddrs)
 
 HandleRequest(w, a, d) ==
     IF ~RequestOK(w, d) THEN [w |-> w, res |-> NoRes, reply |-> NoD]
